@@ -88,6 +88,7 @@ inductive Stmt
   | fwd (h : Nat) (take : Int) | fwd2 (h : Nat) (take : Int) | itat (h : Nat) (p : Int) (take : Int)
   | back (h : Nat) (take : Int) | back2 (h : Nat) (take : Int) | nd (h : Nat) | astr (h : Nat)
   | mk (h : Nat) (kind : String) | nx (it : Nat) (n : Int) | mkseq (h : Nat) | mkseqb (h : Nat) | run (q : Nat) (take : Int)
+  | mkms (h : Nat) (pat : List Int) (back : Bool) | runm (q : Nat) (n : Int)
   | str (h : Nat) | exact (h : Nat) | fmt (h : Nat) (dir : String)
   | find (op : String) (h : Nat) (pat : List Int) (n : Int)
   | pr (h : Nat) (pos : List PTok) (o : OptSet)
@@ -124,6 +125,9 @@ def parseStmt (s : String) : Option Stmt :=
   | ["mkfr", h, p] => do pure (.mkf (← h.toNat?) (← parsePat p) true)
   | ["nxf", i, n] => do pure (.nxf (← i.toNat?) (← n.toInt?))
   | ["run", q, x] => do pure (.run (← q.toNat?) (← x.toInt?))
+  | ["mkms", h, p] => do pure (.mkms (← h.toNat?) (← parsePat p) false)
+  | ["mkbms", h, p] => do pure (.mkms (← h.toNat?) (← parsePat p) true)
+  | ["runm", q, x] => do pure (.runm (← q.toNat?) (← x.toInt?))
   | ["str", h] => do pure (.str (← h.toNat?))
   | ["exact", h] => do pure (.exact (← h.toNat?))
   | ["fmt", h, d] => do pure (.fmt (← h.toNat?) d)
